@@ -1555,10 +1555,8 @@ def run(ctx):
     viols = []
     seen_keys = set()
 
-    if not ctx.get("replay"):
-        import aeadtie          # runs (coqc vm_compute, a subprocess) while the histories below are driven
-        aead_pool = concurrent.futures.ThreadPoolExecutor(1)
-        aead_future = aead_pool.submit(aeadtie.run, ctx, "mini")
+    # (the bit-exact cipher tie runs AFTER the history streams, sequentially: a helper thread alive while run_histories forks
+    # its process pool left a child with an inherited lock held and the check hung - seen once under load)
     if ctx.get("replay"):
         rp = json.load(open(ctx["replay"]))
         hs = [(rp["world"], rp["events"], "replay")]
@@ -1686,8 +1684,8 @@ def run(ctx):
     if not ctx.get("replay"):
         # the symbolic AEAD terms are justified by the shared bit-exact cipher model (Model/ChaChaPoly.v, partial-tag open
         # = bcast_aead_* in Props/C18.v); tie that model to aiohomekit.crypto.chacha20poly1305 here too (vm_compute, own oracle)
-        aead_info, aead_viols = aead_future.result()
-        aead_pool.shutdown()
+        import aeadtie
+        aead_info, aead_viols = aeadtie.run(ctx, "mini")
         cov.extra["aead_bit_exact"] = aead_info
         viols.extend(aead_viols)
 
